@@ -4,7 +4,7 @@
    conditions are decided here by computation. *)
 From Coq Require Import List String Bool Arith.
 From YVGen Require FiberArms.
-From YV Require Import FiberBase Coroutines Fibers FiberLang FibersProofs.
+From YV Require Import FiberBase Coroutines Fibers FiberLang FibersProofs FiberArity FiberArityProofs.
 Import ListNotations.
 
 Definition pn : bool := FiberArms.poke_nil_on_resume.
@@ -38,6 +38,20 @@ Proof. repeat split; reflexivity. Qed.
    sound only if every switch site restores the SAME register set, all three through load_frame *)
 Theorem C09_side_registers : FiberArms.switch_sites_restore_same_registers = true.
 Proof. reflexivity. Qed.
+
+(* the record of the arity of the native in progress (ObjFiber.native_arity) is not state of M either: sound only if
+   nothing but the natives' own argument accessors reads it (C09_recorded_arity_stale_outside_native: outside a native
+   the record of the RUNNING fiber can be stale, a hand-over that trusts it drops a slot too many) *)
+Theorem C09_side_arity_scope :
+  FiberArms.arity_read_only_by_native_accessors = true /\
+  FiberArms.arity_readers = ["native_frame_slot"%string; "unchecked_native_frame_slot"%string].
+Proof. split; reflexivity. Qed.
+Theorem C09_arity_fresh_inside_native : forall s n,
+  a_reachable s -> a_native s = Some n -> a_rec s (a_cur s) = Some n /\ a_recorded s = a_pending s.
+Proof. exact arity_fresh_and_pending. Qed.
+Theorem C09_recorded_arity_stale_outside_native :
+  exists s, a_reachable s /\ a_native s = None /\ a_pending s = 0 /\ a_recorded s = 1.
+Proof. exact recorded_arity_stale_outside_native. Qed.
 
 (* --- the property: M delivers what S delivers, for every program = every interleaving --- *)
 Theorem C09_transfer_faithful : forall p, eval_mech pn p = eval_coroutine p.
@@ -83,6 +97,9 @@ Print Assumptions C09_side_messages.
 Print Assumptions C09_side_handover.
 Print Assumptions C09_side_arity.
 Print Assumptions C09_side_registers.
+Print Assumptions C09_side_arity_scope.
+Print Assumptions C09_arity_fresh_inside_native.
+Print Assumptions C09_recorded_arity_stale_outside_native.
 Print Assumptions C09_transfer_faithful.
 Print Assumptions C09_resume_without_arg_refuted.
 Print Assumptions C09_errors_leave_state.
